@@ -144,9 +144,11 @@ def _relay_cancel(c):
 
 class C08(Sides, C08Base):
     # the scheduler's raptor backlog, the third of the four places where cancellation is implemented
-    # (harness/relay.py: real work / _schedule_incoming / control_cb(cancel_tasks, register, unregister), RP.Relay.Model)
-    side_specs = [Spec('relay', 'relay', ['cancel_in_backlog', 'bystanders_unaffected', 'no_forward_after_final',
-                                          'exactly_one_place', 'linearizable'], only=_relay_cancel)]
+    # (harness/relay.py: real work / _schedule_incoming / _control_cb + control_cb(cancel_tasks, register, unregister) /
+    # is_canceled, RP.Relay.Model)
+    side_specs = [Spec('relay', 'relay', ['cancel_in_backlog', 'cancel_on_queue', 'bystanders_unaffected',
+                                          'no_forward_after_final', 'exactly_one_place', 'linearizable'],
+                       only=_relay_cancel)]
     clauses = C08Base.clauses + side_specs[0].clause_names()
     extra_targets = C08Base.extra_targets + ['Relay/Oracle.vo', 'Relay/Proofs.vo', 'Relay/History.vo', 'Relay/Frame.vo',
                                              'Relay/OracleProofs.vo']
